@@ -82,6 +82,9 @@ func (p *pg) word() *big.Int {
 
 // memory offsets / sizes: mostly small, sometimes at the edges the gas arithmetic guards
 func (p *pg) off() *big.Int {
+	if p.pick(10) == 0 {
+		return []*big.Int{plus(pow2(64), -1), plus(pow2(64), 1), plus(pow2(64), -32), plus(pow2(63), -1), pow2(255)}[p.pick(5)]
+	}
 	switch p.pick(12) {
 	case 0:
 		return new(big.Int).Set(hugeWord)
@@ -162,6 +165,10 @@ var initCodes = [][]byte{
 	{0x60, 0x07, 0x60, 0x00, 0x55, 0x61, 0x60, 0x00, 0x60, 0x00, 0xf3},       // SSTORE(0,7); RETURN(0, 0x6000): too large to pay for
 	{0x38, 0x60, 0x00, 0x60, 0x00, 0x39, 0x38, 0x60, 0x00, 0x60, 0x00, 0xf0}, // CODECOPY(0,0,CODESIZE); CREATE(0,0,CODESIZE): recursion
 	{0x60, 0x05, 0xe0, 0x00},                                                 // ISSUE(5); STOP
+	{0x61, 0x60, 0x00, 0x60, 0x00, 0xf3},                                     // RETURN(0, MaxCodeSize)
+	{0x61, 0x60, 0x01, 0x60, 0x00, 0xf3},                                     // RETURN(0, MaxCodeSize+1): errMaxCodeSizeExceeded
+	{0x60, 0x07, 0x60, 0x00, 0x55, 0x61, 0x60, 0x01, 0x60, 0x00, 0xf3},       // SSTORE(0,7); RETURN(0, MaxCodeSize+1)
+	{0x60, 0x07, 0x60, 0x00, 0x55, 0x61, 0xff, 0xff, 0x60, 0x00, 0xf3},       // SSTORE(0,7); RETURN(0, 0xffff)
 }
 
 // one self-contained snippet: leaves the stack as it found it (unless it ends the program)
@@ -183,6 +190,14 @@ func (p *pg) snippet(a *asm, c func(string)) {
 		c("sha3")
 		a.push(p.size()).push(p.off()).op(oSHA3, oPOP)
 	case 6:
+		if p.pick(2) == 0 {
+			c("returndatacopy-after-call")
+			size := leaveReturnData(a, p.pick(4))
+			ps := dataPairs(size)
+			pr := ps[p.pick(len(ps))]
+			a.push(pr.n).push(pr.off).push(p.off()).op(oRETURNDATACOPY, oRETURNDATASIZE, oPOP)
+			break
+		}
 		c("copy")
 		a.push(p.size()).push(p.off()).push(p.off()).op([]byte{oCALLDATACOPY, oCODECOPY, oRETURNDATACOPY}[p.pick(3)])
 	case 7:
@@ -424,6 +439,8 @@ func corpus() []gcase {
 	add("directed create-recursion", &spec{mode: "call", code: selfCreate(), gas: 10000000, value: z(), maxLns: 300})
 	add("directed create-recursion-to-depth-limit", &spec{mode: "create", code: selfCreate(), gas: 50000000, value: z(), maxLns: 200})
 	add("directed empty-code", &spec{mode: "call", code: nil, gas: 21000, value: big.NewInt(1)})
+	createBoundaryCases(add)
+	boundaryCases(add)
 	return cs
 }
 
